@@ -184,6 +184,14 @@ func (sms *sqlMetadataStore) AppendObject(ctx context.Context, tx *sql.Tx, bucke
 		return nil, err
 	}
 
+	if oldObjectEntity != nil && oldObjectEntity.VersionID != nil && *oldObjectEntity.VersionID != "null" {
+		// Versioning is suspended and the current object is a real version (or a
+		// delete marker with a real version id). That version must stay as it
+		// is: like every other write in a suspended bucket the append goes to
+		// the null version, which PutObject creates or replaces.
+		return sms.PutObject(ctx, tx, bucketName, obj, nil)
+	}
+
 	if oldObjectEntity != nil {
 		existingParts, err := sms.partRepository.FindPartsByObjectIdOrderBySequenceNumberAsc(ctx, tx, *oldObjectEntity.Id)
 		if err != nil {
